@@ -34,6 +34,6 @@ check = make_check('C09', _oracle, _nt)
 
 def streams(tier):
     n = 8 if tier == 'quick' else 12
-    return [Stream('backward', check, strategy=lambda: sched.bwd_case(max_tasks=n, min_tasks=1),
+    return [Stream('backward', check, strategy=lambda: sched.bwd_case(max_tasks=n, min_tasks=1, lookalike_ids=True),
                    examples={'quick': 6000, 'thorough': 100000}),
             Stream('large', check, strategy=lambda: sched.bwd_case(max_tasks=30, min_tasks=13), examples={'quick': 400, 'thorough': 6000})]
